@@ -1182,6 +1182,14 @@ func (f *fn) stmts(list []ast.Stmt, k konts) []string {
 					f.assign(l, rs[j], &out)
 				}
 			case len(x.Rhs) == 1:
+				if ix, ok := x.Rhs[0].(*ast.IndexExpr); ok && len(x.Lhs) == 2 {
+					if u, ok := f.info.TypeOf(ix.X).Underlying().(*types.Map); ok { // v, ok := m[k]
+						m, key := f.expr(ix.X, &out), f.expr(ix.Index, &out)
+						f.assign(x.Lhs[0], "(Go.mapGet "+m+" "+key+" "+f.zero(u.Elem())+")", &out)
+						f.assign(x.Lhs[1], "(Go.mapHas "+m+" "+key+")", &out)
+						break
+					}
+				}
 				call, ok := x.Rhs[0].(*ast.CallExpr)
 				if !ok {
 					bad("multi-value assignment from %s", f.text(x.Rhs[0]))
